@@ -73,7 +73,7 @@ var properties = map[string]propSpec{
 	},
 	"C03": {
 		Bounds: [2]map[string]any{
-			{"rows": "0..3 (0..2 with two grouping columns / NULLs)", "cells": "any non-NaN float64, optional NULL values", "queries": "GROUP BY 1-2 columns with COUNT(*) COUNT(col) SUM MIN MAX AVG, WHERE, HAVING on COUNT/SUM/MIN, ORDER BY over groups; whole-table aggregates with/without WHERE; same function on two columns", "map iteration": "every order at ExecGroupBy's map ranges"},
+			{"rows": "0..3 (0..2 with two grouping columns / NULLs)", "cells": "any non-NaN float64, optional NULL values", "queries": "GROUP BY 1-2 columns with COUNT(*) COUNT(col) SUM MIN MAX AVG, WHERE, HAVING on COUNT/SUM/MIN, ORDER BY over groups; whole-table aggregates with/without WHERE; same function on two columns; NULL and missing cells in one- and two-column grouping keys", "map iteration": "every order at ExecGroupBy's map ranges"},
 			{"rows": "0..4 (0..3)", "cells": "same", "queries": "same", "map iteration": "same"},
 		},
 		Outside: []string{"aggregates over strings", "NaN group keys", "SUM's ParseFloat(Sprintf(x)) round trip is an axiom (shortest-representation guarantee)"},
@@ -87,7 +87,7 @@ var properties = map[string]propSpec{
 	},
 	"C05": {
 		Bounds: [2]map[string]any{
-			{"rows": "0..3", "limit,offset": "any int in [0,2^63)", "sort keys": "1-2 numeric keys × ASC/DESC/default, one string key ≤2 bytes, nullable numeric key"},
+			{"rows": "0..3", "limit,offset": "any int in [0,2^63)", "sort keys": "1-2 numeric keys × ASC/DESC/default, one string key ≤2 bytes, nullable numeric key; renamed, computed and shadowing aliases as sort keys (with a window)"},
 			{"rows": "0..4", "limit,offset": "same", "sort keys": "same"},
 		},
 		Outside: []string{"sort inputs above 12 elements (pdqsort paths; insertionSortLessFunc is what runs below)", "NaN sort keys"},
@@ -129,7 +129,7 @@ var properties = map[string]propSpec{
 	},
 	"C11": {
 		Bounds: [2]map[string]any{
-			{"documents": "0..2 rows × nested arrays of 1..2 rows", "queries": "16 templates (filters, subqueries, EXISTS, CTE on SELECT / on UNION / in a derived table / in an IN-subquery, joins, ORDER BY, aggregates, DISTINCT) × with/without Wrapped()", "faults": "a user function failing at its k-th invocation, k = none,1,2,3"},
+			{"documents": "0..2 rows × nested arrays of 1..2 rows", "queries": "19 templates (filters, subqueries, EXISTS, CTE on SELECT / on UNION / in a derived table / in an IN-subquery, joins, ORDER BY, aggregates, DISTINCT, selector functions) × with/without Wrapped(); 13 joins against a second table with unmatched rows (LEFT/RIGHT/inner, hash / nested loop / STRAIGHT / PARALLEL, INTO, with and without aliases)", "faults": "a user function failing at its k-th invocation, k = none,1,2,3"},
 			{"documents": "same", "queries": "same", "faults": "same"},
 		},
 	},
@@ -156,14 +156,14 @@ var properties = map[string]propSpec{
 	},
 	"C15": {
 		Bounds: [2]map[string]any{
-			{"numbers": "all 144 pairs of the 12 Go numeric types, any value with |integers| ≤ 2^53 (narrow types: every bit pattern), float32 multiples of 1/4 up to 2^22, any finite float64", "strings": "any byte strings ≤2 bytes", "number×string": "integers and halves in -3..12.5 against any string ≤2 bytes over [0-9.-a]; float32/float64 quarters and tenths (non-dyadic float32 included), int32, int64, uint16 in -12..11 against any string ≤2 bytes over {0 1 2 9 . -}, against the number's own text and that text extended by one digit"},
+			{"numbers": "all 144 pairs of the 12 Go numeric types, any integer that float64 represents exactly, up to 2^63 / 2^64 (narrow types: every bit pattern), float32 multiples of 1/4 up to 2^22, any finite float64", "strings": "any byte strings ≤2 bytes", "number×string": "integers and halves in -3..12.5 against any string ≤2 bytes over [0-9.-a]; float32/float64 quarters and tenths (non-dyadic float32 included), int32, int64, uint16 in -12..11 against any string ≤2 bytes over {0 1 2 9 . -}, against the number's own text and that text extended by one digit"},
 			{"numbers": "same", "strings": "≤3 bytes", "number×string": "same over [0-9.-]"},
 		},
-		Outside: []string{"integers beyond 2^53 (not exactly representable)", "NaN"},
+		Outside: []string{"integers that float64 does not represent exactly", "NaN"},
 	},
 	"C16": {
 		Bounds: [2]map[string]any{
-			{"string arguments": "every byte string ≤3 over {' \\ - # blank a \" ; / * NUL 0xC3}", "scalars": "int64 -11..11, 6 float64 values, booleans, NULL × 3 syntactic positions", "templates": "'SELECT '+t+' FROM x' for every t ≤4 bytes over {$ 1 ' \" ` - / * # newline blank a \\}", "argument accounting": "missing, unused, $0, repeated", "two placeholders": "two string arguments ≤2 bytes each in three positions"},
+			{"string arguments": "every byte string ≤3 over {' \\ - # blank a \" ; / * NUL 0xC3}", "scalars": "int64 -11..11 and 7 values at the limits (MinInt64, MaxInt64, ±2^53±1, 2^62), 15 float64 values (MaxFloat64, smallest subnormal, 1e±300, 0.1), booleans, NULL × 3 syntactic positions", "templates": "'SELECT '+t+' FROM x' for every t ≤4 bytes over {$ 1 ' \" ` - / * # newline blank a \\}", "argument accounting": "missing, unused, $0, repeated", "two placeholders": "two string arguments ≤2 bytes each in three positions"},
 			{"string arguments": "≤4 bytes", "scalars": "same", "templates": "≤5 bytes", "argument accounting": "same"},
 		},
 		Outside: []string{"[]byte and time.Time arguments", "the parser and tokenizer run natively on each concretised text: a symbolic query text is concretised byte by byte (bounded enumeration by the solver)"},
@@ -177,7 +177,7 @@ var properties = map[string]propSpec{
 	},
 	"C18": {
 		Bounds: [2]map[string]any{
-			{"arrays": "length 0..3 with optional NULLs", "index": "any float64 in (-2^31, 2^31), fractional and negative included", "functions": "FIRST LAST ELEMENTAT UNWIND ARRAY IF (NULL branches included) CONCAT CHANGETYPE DATERANGE CONSTANT DEFAULTKEY FUSE TO_LOWER TO_UPPER (ASCII, ≤2 bytes) and 9 wrong-arity calls"},
+			{"arrays": "length 0..3 with optional NULLs", "index": "any float64 in (-2^31, 2^31), fractional and negative included", "functions": "CHANGETYPE of every text ≤3 bytes over {0 1 8 9 x - _ . +} and of halves -2.5..3 to integer/double/string/array (any case) and unknown targets; FIRST LAST ELEMENTAT UNWIND ARRAY IF (NULL branches included) CONCAT CHANGETYPE DATERANGE CONSTANT DEFAULTKEY FUSE TO_LOWER TO_UPPER (ASCII, ≤2 bytes) and 9 wrong-arity calls"},
 			{"arrays": "same", "index": "same", "functions": "same"},
 		},
 		Outside: []string{"ENCODE/DECODE (gob reflection) and HASH (md5/sha1/sha512 compression functions) have no model: not applicable to this technique", "TO_LOWER/TO_UPPER beyond ASCII", "CHANGETYPE string↔double round trip is the NumText axiom itself"},
